@@ -22,6 +22,10 @@
 //   mem <m> <words> <noconf:0|1>
 //   mrd <s> <m> <addr> <c>        asynchronous read port created inside ClockScope(c)
 //   mwr <m> <c> <addr> <data>     write port clocked by c
+//   ext [se] in <s>:<c>|<s>@<c> ... out <s>:<c>|<s>@<c> ... clkout <c>:<parent> ...
+//                                 ExternalModule: input ports fed by signal s, declared for clock c through
+//                                 PinConfig::clockOverride (":") or through the active ClockScope ("@"); output ports
+//                                 defining signal s on clock c; clockOut(parent, name) defining clock c; "se" = hasSideEffects
 //   clk2sig <s> <c>               Clock::clkSignal() (bit replicated to 4 bits)
 //   clkdrive <c> <s> both|exp|sim   Clock::overrideClkWith(bit 0 of s) in both views / export view only / simulation view only
 #include "vh.h"
@@ -29,6 +33,7 @@
 #include <gatery/hlim/Subnet.h>
 #include <gatery/hlim/Clock.h>
 #include <gatery/hlim/NodeGroup.h>
+#include <gatery/frontend/ExternalModule.h>
 #include <gatery/hlim/supportNodes/Node_CDC.h>
 #include <gatery/hlim/supportNodes/Node_MemPort.h>
 #include <gatery/hlim/supportNodes/Node_Memory.h>
@@ -52,7 +57,11 @@ static size_t nameId(const std::string &s) {
 	return id;
 }
 
+// ExternalModule::Node_External_Exposed is a private nested class; this TU is compiled with -fno-access-control
+using ExtNode = gtry::ExternalModule::Node_External_Exposed;
+
 static const char *kindOf(const hlim::BaseNode *n) {
+	if (dynamic_cast<const ExtNode*>(n)) return "ext";
 	if (dynamic_cast<const hlim::Node_CDC*>(n)) return "cdc";
 	if (dynamic_cast<const hlim::Node_MemPort*>(n)) return "memport";
 	if (dynamic_cast<const hlim::Node_Signal2Clk*>(n)) return "sig2clk";
@@ -102,6 +111,17 @@ static void dumpCircuit(hlim::Circuit &circuit, const std::string &design, const
 				if (it == nodeIdx.end()) out << "?"; else out << it->second << "." << d.port;
 			}
 		}
+		out << " inclk=";
+		if (auto *e = dynamic_cast<const ExtNode*>(n)) {
+			for (size_t k = 0; k < e->m_inClock.size(); k++) out << (k ? "," : "") << clkStr(e->m_inClock[k]);
+			out << " outclk=";
+			for (size_t k = 0; k < e->m_outClockRelations.size(); k++) {
+				auto &r = e->m_outClockRelations[k];
+				out << (k ? "," : "");
+				if (r.dependentClocks.size() == 1 && r.dependentInputs.empty()) out << clkStr(r.dependentClocks[0]); else out << "?";
+			}
+		} else
+			out << " outclk=";
 		out << "\n";
 		for (size_t o = 0; o < n->getNumOutputPorts(); o++) {
 			out << "rel " << i << " " << o << " deps=";
@@ -160,6 +180,7 @@ struct Interp {
 	std::map<int, std::unique_ptr<UInt>> sigs;
 	std::map<int, std::unique_ptr<Memory<UInt>>> mems;
 	std::vector<std::unique_ptr<Area>> areas;
+	std::vector<std::unique_ptr<ExternalModule>> exts;
 	size_t pinCtr = 0;
 
 	Clock &clk(const std::string &s) { return *clocks.at(std::stoi(s)); }
@@ -263,6 +284,31 @@ struct Interp {
 				else if (t[3] == "sim") dummy.simulationOverride(s);
 				else throw std::runtime_error("bad clkdrive mode " + t[3]);
 				clk(t[1]).overrideClkWith(dummy);
+			}
+		} else if (c == "ext") {
+			exts.push_back(std::make_unique<ExternalModule>("ExtEntity" + std::to_string(exts.size()), "work"));
+			ExternalModule &m = *exts.back();
+			size_t k = 0;
+			for (size_t a = 1; a < t.size(); a++) {
+				if (t[a] == "se") { m.hasSideEffects(true); continue; }
+				const std::string &arg = t.at(++a);
+				size_t sep = arg.find_first_of(":@");
+				if (sep == std::string::npos) throw std::runtime_error("bad ext argument " + arg);
+				std::string lhs = arg.substr(0, sep), rhs = arg.substr(sep + 1);
+				bool viaScope = arg[sep] == '@';
+				std::string pn = "p" + std::to_string(k++);
+				if (t[a-1] == "in") {
+					if (viaScope) { ClockScope cs(clk(rhs)); m.in(pn, 4_b) = (BVec) sig(lhs); }
+					else m.in(pn, 4_b, PinConfig{ .clockOverride = clk(rhs) }) = (BVec) sig(lhs);
+				} else if (t[a-1] == "out") {
+					BVec o = 4_b;
+					if (viaScope) { ClockScope cs(clk(rhs)); o = m.out(pn, 4_b); }
+					else o = m.out(pn, 4_b, PinConfig{ .clockOverride = clk(rhs) });
+					def(lhs, (UInt) o);
+				} else if (t[a-1] == "clkout") {
+					clocks[std::stoi(lhs)] = std::make_unique<Clock>(m.clockOut(clk(rhs), "co_" + lhs));
+				} else
+					throw std::runtime_error("bad ext keyword " + t[a-1]);
 			}
 		} else if (c == "clk2sig") {
 			Bit b = clk(t[2]).clkSignal();
